@@ -1651,6 +1651,8 @@ CALL_CLASSES = list(SPECIALS)
 
 def call_object(cls_name, base_id):
     t = base_id.rsplit(".", 1)[0]
+    if t.startswith("b:"):
+        return boundary_object(cls_name, base_id)
     if t.startswith("x_"):
         return _special(cls_name, t)()
     spec = CLASSES[cls_name]
@@ -2102,6 +2104,8 @@ def impl(line):
         return impl_pcons(t)
     if t[0] == "gbparse":
         return impl_gbparse(t)
+    if t[0] == "bcall":
+        return impl_bcall(t)
     if t[0] in ("hier", "hierx", "hiers"):
         return impl_hier(t)
     return impl_mk(t)
@@ -2425,6 +2429,219 @@ def hier_lines():
     for cn in list(HIER_CLASSES) + list(HIERX_CLASSES):
         for k in range(HIER_KINDS):
             yield f"hiers {cn} {k}"
+
+
+# ----------------------------------------------------------------------------------------------
+# boundary objects (fourth strengthening round): the method grid on systematically SMALL / BOUNDARY valid objects
+#   bcall <Class> <base> <member> <arg-tuple-id> <res>
+# `base` = `b:<family>:<parameters>` names a fixed valid object (no random choice); `res` says what the object has to
+# work with (P parent, S sequence, D directional strand, C coding, I completely inside its chunk, N non-empty) and is
+# derived from the NAME, never from the object: the spec (`Spec.Validate.zeroArgRefusalAllowed`) holds a member
+# without arguments to "refuses only what the object lacks".
+
+BG = HIER_G
+_STR = {"p": "+", "m": "-", "u": "."}
+E2 = [(4, 10), (14, 20)]
+TX_SHAPES = {
+    # name: (exons, cds blocks | None)
+    "full": (E2, E2), "first": (E2, [(4, 10)]), "last": (E2, [(14, 20)]), "endfirst": (E2, [(6, 10)]),
+    "startlast": (E2, [(14, 17)]), "touch": (E2, [(7, 10), (14, 17)]), "onebase5": (E2, [(4, 5)]),
+    "onebase3": (E2, [(19, 20)]), "lastbasefirst": (E2, [(9, 10)]), "firstbaselast": (E2, [(14, 15)]),
+    "inner": (E2, [(5, 9)]), "span2": (E2, [(9, 10), (14, 15)]), "nc": (E2, None),
+    "onebaseexons": ([(4, 5), (8, 9), (12, 13)], [(4, 5), (8, 9), (12, 13)]), "onebaseexonsnc": ([(4, 5), (8, 9), (12, 13)], None),
+    "zeroexon": ([(4, 4), (6, 12)], None), "zeroexonc": ([(4, 4), (6, 12)], [(6, 12)]),
+    "adjacent": ([(4, 10), (10, 16)], [(4, 10), (10, 16)]),
+    "at0": ([(0, 6)], [(0, 6)]), "atend": ([(42, 48)], [(42, 48)]), "whole": ([(0, 48)], [(0, 48)]),
+    "at0nc": ([(0, 1)], None), "atendnc": ([(47, 48)], None),
+}
+TX_FRAMED = ("full", "touch", "first", "onebase5", "span2", "at0")
+FEAT_SHAPES = {
+    "at0": [(0, 1)], "atend": [(47, 48)], "whole": [(0, 48)], "zero": [(0, 0)], "zeroend": [(48, 48)],
+    "zeroblock": [(3, 3), (5, 9)], "onebases": [(3, 4), (6, 7)], "adjacent": [(3, 6), (6, 9)],
+    "zeromid": [(3, 6), (8, 8), (10, 12)],
+}
+VAR_SHAPES = {"at0": (0, 1, "A"), "atend": (47, 48, "G"), "whole": (0, 48, ""), "insat0": (0, 1, "ACGT")}
+# chunk windows relative to an object that occupies [10, 22) with blocks [10,14) [18,22)
+CK_BLOCKS, CK_CDS = [(10, 14), (18, 22)], [(11, 14), (18, 21)]
+CK_RELS = {"eq": (10, 22), "in1": (9, 23), "cut5": (11, 22), "cut3": (10, 21), "left": (2, 10), "right": (22, 30),
+           "firstexon": (10, 14), "intron": (14, 18), "whole": (0, 48), "onebase": (13, 14)}
+CK_INSIDE = ("eq", "in1", "whole")
+
+
+def _bpar(par):
+    if par == "n":
+        return None
+    if par == "s":
+        return mk_parent(("chrom", "chr1", BG))
+    if par == "q":
+        return mk_parent(("noseq", "chr1"))
+    cs, ce = par
+    return mk_parent(("chunk", "chr1", BG, cs, ce))
+
+
+def _b_cds(blocks, st, f, par):
+    fr = frames_for([list(b) for b in blocks], st, f)
+    return CDSInterval([b[0] for b in blocks], [b[1] for b in blocks], SYM[st], [CDSFrame(x) for x in fr],
+                       parent_or_seq_chunk_parent=_bpar(par))
+
+
+def _b_tx(exons, cds, st, f, par, **kw):
+    if cds is None:
+        return TranscriptInterval([b[0] for b in exons], [b[1] for b in exons], SYM[st], parent_or_seq_chunk_parent=_bpar(par), **kw)
+    fr = frames_for([list(b) for b in cds], st, f)
+    return TranscriptInterval([b[0] for b in exons], [b[1] for b in exons], SYM[st], [b[0] for b in cds], [b[1] for b in cds],
+                              [CDSFrame(x) for x in fr], parent_or_seq_chunk_parent=_bpar(par), **kw)
+
+
+def _b_feat(blocks, st, par, **kw):
+    return FeatureInterval([b[0] for b in blocks], [b[1] for b in blocks], SYM[st], parent_or_seq_chunk_parent=_bpar(par), **kw)
+
+
+def _b_var(v, par):
+    return VariantInterval(v[0], v[1], v[2], "v", parent_or_seq_chunk_parent=_bpar(par))
+
+
+def _cds_blocks(L, k):
+    if k == 1:
+        return [(5, 5 + L)]
+    a = (L + 1) // 2
+    return [(5, 5 + a), (8 + a, 8 + L)]          # second block empty when L = 1
+
+
+def _res(par, directional=True, coding=True, inside=True, nonempty=True):
+    return "".join([("P" if par != "n" else "-"), ("S" if par not in ("n", "q") else "-"), ("D" if directional else "-"),
+                    ("C" if coding else "-"), ("I" if inside else "-"), ("N" if nonempty else "-")])
+
+
+def _boundary_table():
+    """class -> {base name: (builder, res)}; insertion order = grid order"""
+    T = {c: {} for c in ("CDSInterval", "TranscriptInterval", "FeatureInterval", "VariantInterval", "GeneInterval",
+                         "FeatureIntervalCollection", "VariantIntervalCollection", "AnnotationCollection")}
+
+    def add(cls, name, fn, res):
+        T[cls][name] = (fn, res)
+    # CDS of total length 1..7 x every start frame x 1-2 exons x both strands, with and without sequence
+    for L in range(1, 8):
+        for f in (0, 1, 2):
+            for k in (1, 2):
+                for st in "pm":
+                    for par in "sn":
+                        add("CDSInterval", f"b:cds:{L}:{f}:{k}:{st}:{par}",
+                            (lambda L=L, f=f, k=k, st=st, par=par: _b_cds(_cds_blocks(L, k), _STR[st], f, par)), _res(par))
+    # CDS at coordinate 0 / at the end of the parent
+    for where in ("0", "e"):
+        for L in (3, 4):
+            for f in (0, 1, 2):
+                for st in "pm":
+                    blocks = [(0, L)] if where == "0" else [(len(BG) - L, len(BG))]
+                    add("CDSInterval", f"b:cdsedge:{where}:{L}:{f}:{st}",
+                        (lambda blocks=blocks, f=f, st=st: _b_cds(blocks, _STR[st], f, "s")), _res("s"))
+    # transcripts whose CDS equals / touches the exon ends, one-base and zero-length exons, coordinate 0 / parent end
+    for shape, (exons, cds) in TX_SHAPES.items():
+        for st in "pm":
+            for f in ((0, 1, 2) if shape in TX_FRAMED else (0,)):
+                for par in (("s", "n") if shape in ("full", "nc", "onebase5") and f == 0 else ("s",)):
+                    add("TranscriptInterval", f"b:tx:{shape}:{st}:{f}:{par}",
+                        (lambda exons=exons, cds=cds, st=st, f=f, par=par: _b_tx(exons, cds, _STR[st], f, par)),
+                        _res(par, coding=cds is not None, nonempty=sum(e - s for s, e in exons) > 0))
+    for shape, blocks in FEAT_SHAPES.items():
+        for st in "pmu":
+            for par in (("s", "n") if shape in ("at0", "zero") else ("s",)):
+                add("FeatureInterval", f"b:feat:{shape}:{st}:{par}",
+                    (lambda blocks=blocks, st=st, par=par: _b_feat(blocks, _STR[st], par)),
+                    _res(par, directional=st != "u", nonempty=sum(e - s for s, e in blocks) > 0))
+    for shape, v in VAR_SHAPES.items():
+        add("VariantInterval", f"b:var:{shape}", (lambda v=v: _b_var(v, "s")), _res("s"))
+    # genes with one child, collections with one member
+    for shape in ("full", "nc", "onebase5", "onebaseexons", "at0", "atend", "zeroexon"):
+        exons, cds = TX_SHAPES[shape]
+        for st in "pm":
+            add("GeneInterval", f"b:gene:{shape}:{st}",
+                (lambda exons=exons, cds=cds, st=st: GeneInterval([_b_tx(exons, cds, _STR[st], 0, "s")], gene_type=Biotype.protein_coding,
+                                                                  parent_or_seq_chunk_parent=_bpar("s"))),
+                _res("s", coding=cds is not None))
+    for shape in ("at0", "atend", "zero", "onebases", "whole"):
+        blocks = FEAT_SHAPES[shape]
+        add("FeatureIntervalCollection", f"b:fc:{shape}",
+            (lambda blocks=blocks: FeatureIntervalCollection([_b_feat(blocks, "+", "s")], parent_or_seq_chunk_parent=_bpar("s"))),
+            _res("s", nonempty=sum(e - s for s, e in blocks) > 0))
+    for shape in ("at0", "atend"):
+        v = VAR_SHAPES[shape]
+        add("VariantIntervalCollection", f"b:vc:{shape}",
+            (lambda v=v: VariantIntervalCollection([_b_var(v, "s")], parent_or_seq_chunk_parent=_bpar("s"))), _res("s"))
+
+    def gene1(par="s", st="+"):
+        return GeneInterval([_b_tx(E2, E2, st, 0, par, transcript_id="T1")], gene_type=Biotype.protein_coding, gene_id="G1",
+                            parent_or_seq_chunk_parent=_bpar(par))
+
+    def fc1(par="s"):
+        return FeatureIntervalCollection([_b_feat(FEAT_SHAPES["at0"], "+", par, feature_types=["promoter"])],
+                                         parent_or_seq_chunk_parent=_bpar(par))
+    AC = {
+        "onegene": lambda: AnnotationCollection(genes=[gene1()], parent_or_seq_chunk_parent=_bpar("s")),
+        "onefc": lambda: AnnotationCollection(feature_collections=[fc1()], parent_or_seq_chunk_parent=_bpar("s")),
+        "genevar": lambda: AnnotationCollection(genes=[gene1()], variant_collections=[
+            VariantIntervalCollection([_b_var((4, 5, "G"), "s")], parent_or_seq_chunk_parent=_bpar("s"))], parent_or_seq_chunk_parent=_bpar("s")),
+        "boundseq": lambda: AnnotationCollection(genes=[gene1()], start=4, end=20, parent_or_seq_chunk_parent=_bpar("s")),
+        "boundswhole": lambda: AnnotationCollection(genes=[gene1()], start=0, end=len(BG), parent_or_seq_chunk_parent=_bpar("s")),
+        "boundszero": lambda: AnnotationCollection(start=5, end=5, parent_or_seq_chunk_parent=_bpar("s")),
+        "boundsatend": lambda: AnnotationCollection(start=len(BG), end=len(BG), parent_or_seq_chunk_parent=_bpar("s")),
+        "noparent": lambda: AnnotationCollection(genes=[gene1("n")]),
+    }
+    for shape, fn in AC.items():
+        add("AnnotationCollection", f"b:ac:{shape}", fn,
+            _res("n" if shape == "noparent" else "s", nonempty=shape not in ("boundszero", "boundsatend")))
+    # chunk parents whose window equals / touches / cuts the object
+    for rel, win in CK_RELS.items():
+        ins = rel in CK_INSIDE
+        for st in "pm":
+            add("CDSInterval", f"b:ck:cds:{rel}:{st}", (lambda win=win, st=st: _b_cds(CK_CDS, _STR[st], 0, win)), _res(win, inside=ins))
+            add("TranscriptInterval", f"b:ck:tx:{rel}:{st}",
+                (lambda win=win, st=st: _b_tx(CK_BLOCKS, CK_CDS, _STR[st], 0, win)), _res(win, inside=ins))
+            add("FeatureInterval", f"b:ck:feat:{rel}:{st}", (lambda win=win, st=st: _b_feat(CK_BLOCKS, _STR[st], win)), _res(win, inside=ins))
+            add("GeneInterval", f"b:ck:gene:{rel}:{st}",
+                (lambda win=win, st=st: GeneInterval([_b_tx(CK_BLOCKS, CK_CDS, _STR[st], 0, win)], gene_type=Biotype.protein_coding,
+                                                     parent_or_seq_chunk_parent=_bpar(win))), _res(win, inside=ins))
+        add("VariantInterval", f"b:ck:var:{rel}", (lambda win=win: _b_var((12, 13, "T"), win)), _res(win, inside=win[0] <= 12 < win[1]))
+        add("FeatureIntervalCollection", f"b:ck:fc:{rel}",
+            (lambda win=win: FeatureIntervalCollection([_b_feat(CK_BLOCKS, "+", win)], parent_or_seq_chunk_parent=_bpar(win))),
+            _res(win, inside=ins))
+        add("AnnotationCollection", f"b:ck:ac:{rel}",
+            (lambda win=win: AnnotationCollection(
+                genes=[GeneInterval([_b_tx(CK_BLOCKS, CK_CDS, "+", 0, win)], gene_type=Biotype.protein_coding,
+                                    parent_or_seq_chunk_parent=_bpar(win))],
+                feature_collections=[FeatureIntervalCollection([_b_feat(CK_BLOCKS, "-", win)], parent_or_seq_chunk_parent=_bpar(win))],
+                parent_or_seq_chunk_parent=_bpar(win))), _res(win, inside=ins))
+        add("AnnotationCollection", f"b:ck:acb:{rel}",
+            (lambda win=win: AnnotationCollection(start=10, end=22, parent_or_seq_chunk_parent=_bpar(win))), _res(win, inside=ins))
+    return T
+
+
+BOUNDARY = _boundary_table()
+
+
+def boundary_object(cls_name, base_id):
+    return BOUNDARY[cls_name][base_id.rsplit(".", 1)[0]][0]()
+
+
+def boundary_points(cls_name, name, index, stride):
+    """[(member, argid)] of one boundary object: every property and every member without arguments; the argument
+    tuples of member j when (index + j) % stride == 0 (stride 1 = everything)"""
+    o = BOUNDARY[cls_name][name][0]()
+    pts = method_points(o)
+    members = []
+    for m, _ in pts:
+        if m not in members:
+            members.append(m)
+    out = []
+    for m, argid in pts:
+        if argid in ("prop", "-") or (index + members.index(m)) % stride == 0:
+            out.append((m, argid))
+    return out
+
+
+def impl_bcall(t):
+    return impl_call(t[:5])
 
 
 # ----------------------------------------------------------------------------------------------
